@@ -642,9 +642,20 @@ func genSlices(ps []pkgInfo) string {
 	const params = "(m_Protected m_Unprotected : hdr) (kalg : Z) (kkid : bytes) (kkey : cosemap) (nsize : Z) (draw : bytes)"
 	for _, sp := range sliceTargets {
 		name := fmt.Sprintf("cose_%s_%s_%s", sp.typ, sp.method, sp.kind)
+		srt := "unit"
+		switch len(sp.outputs) {
+		case 1:
+			srt = "bytes"
+		case 2:
+			if sp.outputs[0] == "iv" {
+				srt = "(bytes * hdr)"
+			} else {
+				srt = "(hdr * hdr)"
+			}
+		}
 		stub := func(why string) {
 			fmt.Fprintln(os.Stderr, "gen: T12:", name, "not translated:", why)
-			fmt.Fprintf(&b, "(* %s — NOT TRANSLATED: %s *)\nDefinition %s : unit := tt.\n\n", name, strings.ReplaceAll(why, "*)", "* )"), name)
+			fmt.Fprintf(&b, "(* %s — NOT TRANSLATED: %s *)\nDefinition %s %s : res %s := Panic.\n\n", name, strings.ReplaceAll(why, "*)", "* )"), name, params, srt)
 		}
 		var fd *ast.FuncDecl
 		for _, file := range pi.p.Syntax {
@@ -701,7 +712,7 @@ func genSlices(ps []pkgInfo) string {
 		name := "cose_" + typ + "_UnmarshalCBOR_strip"
 		stub := func(why string) {
 			fmt.Fprintln(os.Stderr, "gen: T12:", name, "not translated:", why)
-			fmt.Fprintf(&b, "(* %s — NOT TRANSLATED: %s *)\nDefinition %s : unit := tt.\n\n", name, strings.ReplaceAll(why, "*)", "* )"), name)
+			fmt.Fprintf(&b, "(* %s — NOT TRANSLATED: %s *)\nDefinition %s (data : bytes) : res bytes := Panic.\n\n", name, strings.ReplaceAll(why, "*)", "* )"), name)
 		}
 		var fd *ast.FuncDecl
 		for _, file := range pi.p.Syntax {
@@ -776,7 +787,7 @@ func genCwtSlices(ps []pkgInfo) string {
 		name := "cwt_Validator_" + t.method
 		stub := func(why string) {
 			fmt.Fprintln(os.Stderr, "gen: T13:", name, "not translated:", why)
-			fmt.Fprintf(&b, "(* %s — NOT TRANSLATED: %s *)\nDefinition %s : unit := tt.\n\n", name, strings.ReplaceAll(why, "*)", "* )"), name)
+			fmt.Fprintf(&b, "(* %s — NOT TRANSLATED: %s *)\nDefinition %s %s : res unit := Panic.\n\n", name, strings.ReplaceAll(why, "*)", "* )"), name, t.params)
 		}
 		var fd *ast.FuncDecl
 		for _, file := range pi.p.Syntax {
@@ -1036,7 +1047,8 @@ func genKeyFuncs(ps []pkgInfo) string {
 		name := "key_Key_" + m
 		stub := func(why string) {
 			fmt.Fprintln(os.Stderr, "gen: T14:", name, "not translated:", why)
-			fmt.Fprintf(&b, "(* %s — NOT TRANSLATED: %s *)\nDefinition %s : unit := tt.\n\n", name, strings.ReplaceAll(why, "*)", "* )"), name)
+			krt := map[string]string{"Kty": "Z", "Kid": "bytes", "Alg": "Z", "BaseIV": "bytes", "Ops": "(option (list Z))"}[m]
+			fmt.Fprintf(&b, "(* %s — NOT TRANSLATED: %s *)\nDefinition %s (k : cosemap) (k_nil : bool) : res %s := Panic.\n\n", name, strings.ReplaceAll(why, "*)", "* )"), name, krt)
 		}
 		var fd *ast.FuncDecl
 		for _, file := range pi.p.Syntax {
@@ -1321,7 +1333,7 @@ func genLookups(ps []pkgInfo) string {
 		name := "key_" + t.fn
 		stub := func(why string) {
 			fmt.Fprintln(os.Stderr, "gen: T15:", name, "not translated:", why)
-			fmt.Fprintf(&b, "(* %s — NOT TRANSLATED: %s *)\nDefinition %s : unit := tt.\n\n", name, strings.ReplaceAll(why, "*)", "* )"), name)
+			fmt.Fprintf(&b, "(* %s — NOT TRANSLATED: %s *)\nDefinition %s (vs : list %s) (kid_ : bytes) : res (option %s) := Panic.\n\n", name, strings.ReplaceAll(why, "*)", "* )"), name, t.elem, t.elem)
 		}
 		pi, fd := find("key", t.fn)
 		if fd == nil || fd.Recv == nil || len(fd.Recv.List) != 1 || len(fd.Recv.List[0].Names) != 1 || len(fd.Type.Params.List) != 1 || len(fd.Type.Params.List[0].Names) != 1 {
@@ -1347,7 +1359,7 @@ func genLookups(ps []pkgInfo) string {
 		name := "cose_SignMessage_Verify"
 		stub := func(why string) {
 			fmt.Fprintln(os.Stderr, "gen: T15:", name, "not translated:", why)
-			fmt.Fprintf(&b, "(* %s — NOT TRANSLATED: %s *)\nDefinition %s : unit := tt.\n\n", name, strings.ReplaceAll(why, "*)", "* )"), name)
+			fmt.Fprintf(&b, "(* %s — NOT TRANSLATED: %s *)\nDefinition %s (verifiers : list sigprim) (externalData : option bytes) (w : wire) (sigs : option (list sigent)) : res unit := Panic.\n\n", name, strings.ReplaceAll(why, "*)", "* )"), name)
 		}
 		pi, fd := find("cose", "SignMessage_Verify")
 		if fd == nil || fd.Recv == nil || len(fd.Recv.List) != 1 || len(fd.Recv.List[0].Names) != 1 || len(fd.Type.Params.List) != 2 ||
